@@ -27,7 +27,7 @@ import (
 func init() {
 	fw.Register(&fw.Check{
 		ID: "C03", Level: "model_checking",
-		Rule:   "(a) environment-answer DFS over map-iteration orders: every `range` over a map in the library (found by the typed instrumenter: 4 sites today) is an explicit choice point; for multi-fault / multi-entry documents (2-3 faulty macros, 2-3 unused Path properties, 3 enums used by 3 types, their pairwise combinations, every single pool block; and 2-3 included files of identical layout each holding the same fault; every single-file case of the shared streams: pool documents in several orders, all sequences of <= 2 directive variants, paste graphs, 2-3 simultaneous instances of every fault kind about named things, thorough: corpus and names) ALL permutations at every choice point are executed (full product up to 20000 executions per document, beyond that every execution with <= 2 choice points departing from the canonical order) and verdict, message, index, line, trace and JSON bytes must be identical; (a') ALL sequences of three runs over 4 projects x 6 option lists in which the option values are shared between the runs, against the same runs with freshly made option values; (b) every project run twice in one process; (c) every project run in two fresh processes; (d) every ordered pair (A, B) of a 34-project set (accepted and rejected, same file names with LF / CRLF / CR content, includes with equal relative names) run A then B in one process: B's result must equal B's result in a fresh process; non-trivial = execution with at least one choice point holding >= 2 keys, or a pair; distinct = distinct (document, choice vector) and pairs",
+		Rule:   "(a) environment-answer DFS over map-iteration orders: every `range` over a map in the library (found by the typed instrumenter: 4 sites today) is an explicit choice point; for multi-fault / multi-entry documents (2-3 faulty macros, 2-3 unused Path properties, 3 enums used by 3 types, their pairwise combinations, every single pool block; and 2-3 included files of identical layout each holding the same fault; every single-file case of the shared streams: pool documents in several orders, all sequences of <= 2 directive variants, paste graphs, 2-3 simultaneous instances of every fault kind about named things, thorough: corpus and names) ALL permutations at every choice point are executed (full product up to 20000 executions per document, beyond that every execution with <= 2 choice points departing from the canonical order) and verdict, message, index, line, trace and JSON bytes must be identical; (a') ALL sequences of three runs over 4 projects x 6 option lists in which the option values are shared between the runs, against the same runs with freshly made option values; (b) every project run twice in one process; (c) every project run in two fresh processes; (d) every ordered pair (A, B) of a 34-project set (accepted and rejected, same file names with LF / CRLF / CR content, includes with equal relative names) run A then B in one process: B's result must equal B's result in a fresh process; non-trivial = execution with at least one choice point holding >= 2 keys, or a pair; distinct = distinct (document, choice vector) and pairs ; the pair projects also without any option: twice in this process, two fresh processes, process vs in-process",
 		Assume: []string{"map iterations inside the pinned schema library are not instrumented (only this repository's packages are); interference between projects processed concurrently is C16's harness H3"},
 		Run:    runC03, QuickCap: 10 * time.Minute, ThoroughCap: 40 * time.Minute,
 	})
